@@ -983,13 +983,18 @@ def check_C15(ctx):
     def near_threshold(x, y, n):
         """is |x-y| within a relative 2^-40 of one of the decision thresholds, or the larger magnitude within 2^-48 of a power of ten?"""
         d = abs(Fraction(x) - Fraction(y)); T = exact_T(x, y, n)
-        for thr in (T, T / 10, ABS_TOL):
-            if thr > 0 and abs(d - thr) <= thr * Fraction(1, 2**40):
-                return True
         L = max(abs(Fraction(x)), abs(Fraction(y)))
+        thrs = [T, T / 10, ABS_TOL]
         if L > 0:
             import math
             k = math.floor(math.log10(L))
+            while Fraction(10) ** k > L: k -= 1
+            while Fraction(10) ** (k + 1) <= L: k += 1
+            thrs.append(Fraction(10) ** (1 + k - n))      # the accuracy the algorithm actually compares with: 10^(1+floor(log10 L)-n)
+        for thr in thrs:
+            if thr > 0 and abs(d - thr) <= thr * Fraction(1, 2**40):
+                return True
+        if L > 0:
             for kk in (k, k + 1):
                 p = Fraction(10) ** kk
                 if abs(L - p) <= p * Fraction(1, 2**48):
@@ -1017,6 +1022,7 @@ def check_C15(ctx):
                 state["nexact"] += 1
                 if not near_threshold(x, y, n) and nm in ("eq", "ne", "legacyEq", "legacyNe", "legacyEqMsg", "legacyNeMsg", "mockEq", "mockNe"):
                     state["nslack"] += 1
+                    state.setdefault("slack_cases", []).append(f"{nm} {n} figures {x!r} ({d2bits(x):016x}) vs {y!r} ({d2bits(y):016x}): impl {g}, exact instance {mex}")
             fx, fy = Fraction(x), Fraction(y)
             d = abs(fx - fy); T = exact_T(x, y, n)
             band = near_threshold(x, y, n)
@@ -1060,7 +1066,7 @@ def check_C15(ctx):
     ndis, nslack, nexact = state["ndis"], state["nslack"], state["nexact"]
     ctx.oblige("correspondence C15: the binary64 instance of the model and the implementation agree on every pair", ndis == 0, f"{ndis} disagreements")
     ctx.oblige("the exact instance differs from the implementation on equality only inside the rounding band (2^-40 relative around a threshold, or a larger magnitude within 2^-48 of a power of ten)",
-               nslack == 0, f"{nslack} equality cases outside the band")
+               nslack == 0, f"{nslack} equality cases outside the band: " + "; ".join(state.get("slack_cases", [])[:3]))
     ctx.coverage["correspondence"] = {"cases": len(lines), "disagreements": ndis, "exact_instance_differs": nexact, "equality_outside_band": nslack, "oracle_evaluations": len(lines)}
     ctx.coverage["samples"] = lines[:3]
     ctx.coverage["evaluations"] = len(lines)
@@ -1442,6 +1448,7 @@ def check_C10(ctx):
                 if rng.random() < 0.3: at = "a" * rng.choice([300, 1000]) + gen_text(rng, 6)
             via_mock = rng.random() < 0.25
             if via_mock: at = "[p] parameter in [mocked_s]"
+            if re.fullmatch(r"-?\d+", at): at = "n" + at
             ctor = ctors_str[kind]
             name = fld[(ctor, "name")]
             em = fld.get((ctor, "expected_value_message"), d_exp)
@@ -1450,7 +1457,7 @@ def check_C10(ctx):
             al, ac, _ = split_conv(am)
             f3 = not ("not " in name and "equal " in name)
             probe_lines.append(f"{'mckstr' if via_mock else 'msgstr'} {kind} {hexs(at.encode())} {hexs(et.encode())} {hexs(av.encode())} {hexs(evs.encode())}")
-            f2 = not (at in ("true", "false") or re.fullmatch(r"-?\d+", at or "x") is not None)
+            f2 = at not in ("true", "false")      # (the other case, the text being the decimal of the string's address, is kept out of the generator)
             model_lines.append(" ".join(["msg", "1", str(int(f2)), str(int(f3))] + [hexs(x.encode()) for x in (name, al, ac, el, ec, at, et, av, evs)]))
             meta.append(("str", at, et, av if f2 else None, evs if (f2 and f3) else None))
     # legacy assertions and mock parameter checks: exact texts from the extracted formats
